@@ -3,6 +3,7 @@ package main
 import (
 	"google.golang.org/protobuf/proto"
 	"google.golang.org/protobuf/reflect/protodesc"
+	"google.golang.org/protobuf/reflect/protoreflect"
 	"google.golang.org/protobuf/reflect/protoregistry"
 	"google.golang.org/protobuf/types/descriptorpb"
 	"google.golang.org/protobuf/types/dynamicpb"
@@ -68,4 +69,26 @@ func registerDynamicTypes() {
 			panic(err)
 		}
 	}
+}
+
+// twinTypes builds, for a few generated files, a second set of descriptors with the same full
+// names (as a process that loads descriptors at run time next to its generated code has them):
+// dynamic "twins" of generated messages. Schemas are cached by name, so a twin and its generated
+// sibling share a schema while every call must still use its own message descriptor.
+func twinTypes() []protoreflect.MessageType {
+	var out []protoreflect.MessageType
+	for _, path := range []string{"test/schema/v1/full_schema.proto", "test/foo/v1/foo.proto"} {
+		gen, err := protoregistry.GlobalFiles.FindFileByPath(path)
+		if err != nil {
+			continue
+		}
+		twin, err := protodesc.NewFile(protodesc.ToFileDescriptorProto(gen), protoregistry.GlobalFiles)
+		if err != nil {
+			continue
+		}
+		for i := 0; i < twin.Messages().Len(); i++ {
+			out = append(out, dynamicpb.NewMessageType(twin.Messages().Get(i)))
+		}
+	}
+	return out
 }
